@@ -233,6 +233,20 @@ ECC = ["src/codec/ccopy.c", "src/codec/enc32be.c", "src/codec/dec32be.c"]
 entry("ec_p256_m15_p256_mul", "C08_ecmul.c", ["src/ec/ec_p256_m15.c"] + ECC, ["p256_mul"],
       [S("x1", 300, XLEN=1, tier="thorough")], opts=("Os",), real_units=["src/ec/ec_secp256r1.c"] + ECC, timeout=900,
       desc="ec_p256_m15 p256_mul (window look-up by CCOPY, Jacobian double/add), 1-byte scalar", secret="scalar, point coordinate limbs", public="xlen, addresses")
+# ESP8266-like configuration (portable 32-bit code paths: BR_64=0, BR_LOMUL=1, no unaligned access) for the
+# implementations the ESP8266 build selects
+import copy as _copy
+for _nm in ("i15_montymul", "i15_muladd_small", "i15_modpow_opt", "ccopy", "hmac_outCT", "cbc_decrypt_md5", "aes_ct_cbcenc", "aes_ct_cbcdec", "des_ct_cbcenc",
+            "chacha20_ct", "poly1305_ctmul32", "ghash_ctmul32", "rsa_ssl_decrypt", "gcm_check_tag"):
+    _e = [x for x in ENTRIES if x["name"] == _nm][0]
+    _c = _copy.deepcopy(_e)
+    _c["name"] = _nm + "_esp"
+    _c["config"] = "esp"
+    _c["opts"] = ("Os",)
+    _c["quick_opts"] = ("Os",)
+    _c["sizes"] = [s for s in _c["sizes"] if s["tier"] == "quick"][-1:]
+    _c["desc"] = _e["desc"] + " [ESP8266-like config]"
+    ENTRIES.append(_c)
 # negative controls (reported through extra_checks; they must FAIL)
 entry("aes_big_cbcenc", "C08_sym.c", [SC + "aes_big_enc.c", SC + "aes_big_cbcenc.c", SC + "aes_common.c", "src/codec/enc32be.c", "src/codec/dec32be.c"],
       ["br_aes_big_cbcenc_init", "br_aes_big_cbcenc_run"], [S("k16-n16", 70, FN=20, KL=16, NB=16)], control=True,
